@@ -17,7 +17,7 @@ import sys, os, json, time, hashlib, random, subprocess, tempfile, shutil, impor
 ROOT = os.path.dirname(os.path.dirname(os.path.abspath(__file__)))
 REPO = os.environ.get("LSF_REPO", "/repo")
 REPO_PY = os.path.join(REPO, "asl-workflow-engine", "py")
-EVIDENCE_DIR = os.path.join(ROOT, "evidence")
+EVIDENCE_DIR = os.environ.get("LSF_EVIDENCE_DIR") or os.path.join(ROOT, "evidence")      # (the override serves tools_matrix.py only)
 REPLAY_DIR = os.path.join(EVIDENCE_DIR, "replay")
 FINDINGS_FILE = os.path.join(ROOT, "known_findings.json")
 NCPU = min(16, os.cpu_count() or 1)
